@@ -2,6 +2,11 @@
 
 package ast
 
+import (
+	"fmt"
+	"sync"
+)
+
 // Contracts, pure specification functions and lemma functions for package ast.
 // This file only exists under the build tag "verif". The //@ blocks are read by /verif/engine (govc);
 // the Go functions below (spec*) are the executable oracle: govc translates them to SMT definitions,
@@ -938,6 +943,7 @@ func specBoolByte(b bool) int {
 //@   ensures forall i int :: 0 <= i && i < len(values) ==> (typeis(values[i], ItemNode) && r.values[i] == values[i]) || (typeis(values[i], string) && typeis(r.values[i], emptyItemNode) && has(r.variables, sval(values[i])) && r.variables[sval(values[i])] == i)
 //@   ensures forall s string :: has(r.variables, s) ==> 0 <= r.variables[s] && r.variables[s] < len(values) && typeis(values[r.variables[s]], string) && sval(values[r.variables[s]]) == s
 //@   ensures (forall i int :: 0 <= i && i < len(values) ==> !typeis(values[i], string)) ==> len(r.variables) == 0
+//@   rac_ensures racListFillIsSubstitution()
 //@   loop 1
 //@     invariant (forall i int :: 0 <= i && i < len(values) ==> typeis(values[i], ItemNode) && !typeis(values[i], emptyItemNode) && nvars(values[i]) == 0) ==> (forall k int :: 0 <= k && k <= rangeindex ==> !typeis(nodeValues[k], emptyItemNode) && nvars(nodeValues[k]) == 0)
 //@     invariant (forall k int :: 0 <= k && k <= rangeindex ==> !typeis(values[k], string)) ==> (forall s string :: !has(nodeVariables, s))
@@ -1239,3 +1245,85 @@ func specBoolByte(b bool) int {
 //@   ensures fresh(result) && len(result) == len(node.variables)
 //@   ensures forall i int :: 0 <= i && i < len(result) ==> has(node.variables, result[i])
 //@   ensures forall i int, j int :: 0 <= i && i < j && j < len(result) ==> node.variables[result[i]] < node.variables[result[j]]
+
+// ---------------------------------------------------------------------------------------------
+// Run-time oracle (rac_ensures only; bounded, never counted as proved): ListNode.FillVariables and the message-level fill
+// against direct construction (C09). ListNode.FillVariables is not under a deductive contract; these are the cases the
+// statement names: a fill-in value that brings its own variables is inserted as is, unknown keys are ignored, unmentioned
+// variables keep their order, filling in steps equals filling once, and the filled message encodes like the direct one.
+var (
+	racListFillOnce sync.Once
+	racListFillOK   bool
+)
+
+func racSameItem(a, b ItemNode) bool {
+	return fmt.Sprint(a) == fmt.Sprint(b) && fmt.Sprint(a.Variables()) == fmt.Sprint(b.Variables()) && string(a.ToBytes()) == string(b.ToBytes()) && a.Size() == b.Size()
+}
+
+func racListFillIsSubstitution() bool {
+	racListFillOnce.Do(func() {
+		racListFillOK = true
+		n := 0
+		check := func(name string, got, want ItemNode) {
+			n++
+			if racListFillOK && !racSameItem(got, want) {
+				racListFillOK = false
+				fmt.Printf("GOVC-NOTE racListFillIsSubstitution: %s: got %q %v, want %q %v\n", name, fmt.Sprint(got), got.Variables(), fmt.Sprint(want), want.Variables())
+			}
+		}
+		defer func() {
+			if r := recover(); r != nil {
+				racListFillOK = false
+				fmt.Println("GOVC-NOTE racListFillIsSubstitution: panic", r)
+			}
+		}()
+		tmpl := func() ItemNode {
+			return NewListNode("x", NewUintNode(1, "a", 9), NewListNode(NewIntNode(2, "p", "q"), "z", NewASCIINodeVariable("s", 0, 3)), NewBooleanNode("b1", true), NewBinaryNode(1, "c"), NewFloatNode(8, "f"))
+		}
+		// 1. a value that brings its own variable is inserted as is, even when the same map has a key for that variable
+		check("own variables inserted as is",
+			tmpl().FillVariables(map[string]interface{}{"x": NewIntNode(1, "y"), "y": 7, "a": 3}),
+			NewListNode(NewIntNode(1, "y"), NewUintNode(1, 3, 9), NewListNode(NewIntNode(2, "p", "q"), "z", NewASCIINodeVariable("s", 0, 3)), NewBooleanNode("b1", true), NewBinaryNode(1, "c"), NewFloatNode(8, "f")))
+		check("nested own variables inserted as is",
+			tmpl().FillVariables(map[string]interface{}{"z": NewListNode("w", NewUintNode(2, "a2")), "w": NewBooleanNode(true), "a2": 5}),
+			NewListNode("x", NewUintNode(1, "a", 9), NewListNode(NewIntNode(2, "p", "q"), NewListNode("w", NewUintNode(2, "a2")), NewASCIINodeVariable("s", 0, 3)), NewBooleanNode("b1", true), NewBinaryNode(1, "c"), NewFloatNode(8, "f")))
+		// 2. unknown keys are ignored, unmentioned variables stay in order
+		check("unknown keys ignored",
+			tmpl().FillVariables(map[string]interface{}{"q": -4, "nope": 2, "": 1}),
+			NewListNode("x", NewUintNode(1, "a", 9), NewListNode(NewIntNode(2, "p", -4), "z", NewASCIINodeVariable("s", 0, 3)), NewBooleanNode("b1", true), NewBinaryNode(1, "c"), NewFloatNode(8, "f")))
+		check("empty map", tmpl().FillVariables(map[string]interface{}{}), tmpl())
+		// 3. several steps equal one step with the union
+		all := map[string]interface{}{"x": NewBinaryNode(7), "a": 1, "p": 2, "q": 3, "z": NewASCIINode("zz"), "s": "abc", "b1": false, "c": 255, "f": 1.5}
+		direct := NewListNode(NewBinaryNode(7), NewUintNode(1, 1, 9), NewListNode(NewIntNode(2, 2, 3), NewASCIINode("zz"), NewASCIINode("abc")), NewBooleanNode(false, true), NewBinaryNode(1, 255), NewFloatNode(8, 1.5))
+		check("one step", tmpl().FillVariables(all), direct)
+		keys := []string{"x", "a", "p", "q", "z", "s", "b1", "c", "f"}
+		for split := 1; split < len(keys); split++ {
+			m1, m2 := map[string]interface{}{}, map[string]interface{}{}
+			for i, k := range keys {
+				if i < split {
+					m1[k] = all[k]
+				} else {
+					m2[k] = all[k]
+				}
+			}
+			check(fmt.Sprintf("two steps split at %d", split), tmpl().FillVariables(m1).FillVariables(m2), direct)
+			check(fmt.Sprintf("two steps reversed split at %d", split), tmpl().FillVariables(m2).FillVariables(m1), direct)
+		}
+		one := tmpl()
+		for _, k := range keys {
+			one = one.FillVariables(map[string]interface{}{k: all[k]})
+		}
+		check("one key at a time", one, direct)
+		// 4. message level: header kept, bytes equal to the directly constructed message once complete
+		sb := []byte{1, 2, 3, 4}
+		m := NewDataMessage("n", 5, 7, 2, "H->E", tmpl()).FillVariables(map[string]interface{}{"a": 1, "p": 2}).FillVariables(all).SetWaitBit(true).SetSessionIDAndSystemBytes(9, sb)
+		d := NewHSMSDataMessage("n", 5, 7, 1, "H->E", direct, 9, sb)
+		n++
+		if racListFillOK && (string(m.ToBytes()) != string(d.ToBytes()) || m.String() != d.String() || len(m.ToBytes()) == 0) {
+			racListFillOK = false
+			fmt.Printf("GOVC-NOTE racListFillIsSubstitution: filled message %q differs from the direct one %q\n", m.String(), d.String())
+		}
+		fmt.Println("GOVC-COUNT racListFillIsSubstitution fills compared with direct construction:", n)
+	})
+	return racListFillOK
+}
